@@ -81,4 +81,7 @@ Example c07_nonvacuous :
                        76;32;51;32;52;34;47;62; 60;47;115;118;103;62; 32]
   /\ nonws (strip_lb_svg s) = nonws s /\ no_lf_b (strip_lb_svg s) = true
   /\ one_lines [[95;109;111;100;101;108;61;97;10;98]] = [[95;109;111;100;101;108;61;97;32;98]].
-Proof. cbv zeta. repeat split; vm_compute; reflexivity. Qed.
+Proof.
+  cbv zeta. split; [vm_compute; reflexivity|]. split; [vm_compute; reflexivity|].
+  split; [vm_compute; reflexivity|]. split; vm_compute; reflexivity.
+Qed.
